@@ -33,6 +33,7 @@ def gen_unit(name, gendir, _top=True):
     os.makedirs(gendir, exist_ok=True)
     open(os.path.join(gendir, name + '_types.h'), 'w').write(t)
     open(os.path.join(gendir, name + '_slice.c'), 'w').write(f)
+    open(os.path.join(gendir, name + '_protos.h'), 'w').write(''.join(fn['sig'] + ';\n' for fn in mod.UNIT['functions']))
     return mod, recs
 
 def select_jobs(mod, prop=None, tier='quick', rx=None):
